@@ -68,4 +68,25 @@ theorem eval_log_opened (s : Sel) (r : Rid) :
   simp only [eval, init]
   split <;> rename_i heq <;> simp [heq, closeAll_opened]
 
+/-- a range aggregation over one selection opens the same readers as the log query over it,
+whether or not the aggregation itself can be built (the selection is opened first) -/
+theorem eval_range_opened (s : Sel) (aggOk : Bool) (r : Rid) :
+    r ∈ (eval (.range s aggOk) init).2.opened ↔ r ∈ (eval (.log s) init).2.opened := by
+  simp only [eval, build]
+  rcases h : selectLogs s init with ⟨(e | it), st1⟩
+  · simp
+  · cases aggOk <;> simp [closeAll_opened] <;> split <;> simp [closeAll_opened]
+
+/-- operands are built left to right and the right one is not touched when the left one fails:
+after a failure in the left selection no reader of a later selection exists -/
+theorem binop_left_failure_short_circuits (ok : Bool) (s1 : Sel) (a1 : Bool) (rq : Q) (r : Rid)
+    (hf : (selectLogs s1 init).1.isOk = false ∨ a1 = false) :
+    r ∈ (eval (.binop ok (.range s1 a1) rq) init).2.opened ↔ r ∈ (eval (.log s1) init).2.opened := by
+  simp only [eval, build]
+  rcases h : selectLogs s1 init with ⟨(e | it), st1⟩
+  · simp
+  · rcases hf with hf | hf
+    · simp [h, Except.isOk, Except.toBool] at hf
+    · subst hf; simp [closeAll_opened]
+
 end Resources
